@@ -6,9 +6,39 @@ import os
 HERE = os.path.dirname(os.path.abspath(__file__))
 ALL = ['C%02d' % i for i in range(1, 21)]
 
+TECH_GIT = ('bounded symbolic execution of the real workflow functions on a symbolic git repository '
+            '(closure bit-vector model of the git binary behind Repository.cmd), z3 query per monitor after each remote update; '
+            'counterexamples and sampled paths replayed on a real repository with /usr/bin/git')
 TECH = 'bounded symbolic execution of the real functions (own forking executor on z3 proxies), per-path solver query against an oracle formula; counterexamples replayed concretely'
 
 CHECKS = {
+    'C01': dict(
+        text='Inductive step on a symbolic repository: the real queue-merge (handle_merge_queues with the real cascade, '
+             'QueueCollection build/validate/_process, merge_queues, close_queued_pull_request, push) and direct-merge '
+             '(merge_integration_branches, robust/octopus/consecutive merge, push) routines run on a repository whose commit '
+             'graph (ancestor-closure bit-vectors), ref tips, build statuses and merge conflicts are symbolic, assuming only '
+             'inclusion before the job; after every observable remote update z3 decides inclusion for all graphs on the path. '
+             'Bounded: <= 18 pre-existing commits, <= 2 queued PRs, 1-4 destinations, enumerated cascade shapes.',
+        note='Trusts z3, the symgit model of the git binary (every run replays sampled path witnesses on a real repository '
+             'with /usr/bin/git and compares outcome, refs and ancestry) and the assumption that only the encoded routines write '
+             'destination branches. Counterexamples are replayed on real git before they are reported.',
+        design='3/C01', technique=TECH_GIT),
+    'C02': dict(
+        text='Same symbolic runs as C01 with the all-or-none monitor evaluated after every observable remote update (each ref of a '
+             'non-atomic push, the whole transaction of an atomic one), with a symbolic per-ref refusal by the server inside each '
+             'push; crash points need no enumeration because the remote state at every boundary is checked for all graphs. '
+             'Because the pre-state of the queue merge is arbitrary, every state a crashed add_to_queue can leave is included.',
+        note='Partial: content equality of the recovered run with the uninterrupted run is not decided (the closure model has no '
+             'file contents). Assumes queued PRs each added a commit of their own on each version (independent PRs).',
+        design='3/C02', technique=TECH_GIT),
+    'C03': dict(
+        text='Queue merges from an arbitrary symbolic repository with symbolic build statuses: whenever a destination moves, its new '
+             'tip must be a commit whose status is SUCCESSFUL (tip identity is tracked: a fast-forward keeps the built commit, a merge '
+             'commit is a fresh, never-built commit) unless force-merged. Direct merges in skip_queue_when_not_needed mode run the real '
+             'check_in_sync, check_build_status, build_queue_collection, is_needed and merge_integration_branches in the handler order.',
+        note='Cut: update_integration_branches (needs git log) - paths that are not in sync are dropped. The longest-green-prefix '
+             'clause is decided in C05.',
+        design='3/C03', technique=TECH_GIT),
     'C04': dict(
         text='Every path of the real check_approvals (with the real bypass helpers and '
              'PullRequestJob.author_bypass) is executed on symbolic settings, counts and user sets; '
@@ -25,6 +55,14 @@ CHECKS = {
         note='Trusts z3 and the SEnum proxy (validated by witness replay on the real function). History clause '
              '(superseded tips) is covered by the symgit runs, not here.',
         design='3/C06', technique=TECH),
+    'C08': dict(
+        text='In the symbolic runs of C01/C02 every remote update is monitored: destinations move only by fast-forward '
+             '(closure inclusion), no ref outside w/, q/, tmp/ and the destinations is updated or deleted; before each push a '
+             'symbolic third-party action (new branch, commit pushed to a source branch, source branch rewound) is applied to '
+             'the server. Reproduced findings about `push --all --prune` are listed in known_findings.json.',
+        note='Partial: true concurrency inside git is not modelled (the third-party action is serialised before the push); '
+             'delete-branch job and Branch.remove guard are checked in C20.',
+        design='3/C08', technique=TECH_GIT),
     'C18': dict(
         text='The live regular expressions of every class tried by branch_factory are translated from their sre parse tree '
              'to z3 regexes; classification (first match in factory order) is proved equal to an independently written '
@@ -67,6 +105,8 @@ def main():
         engines=[
             dict(name='rx2z3', path='rx2z3/', serves_properties=[p for p in sorted(CHECKS) if CHECKS[p].get('engine') == 'rx2z3'],
                  kind_free_text='sre parse tree -> z3 regular expressions; language queries'),
+            dict(name='symgit', path='symgit/', serves_properties=['C01', 'C02', 'C03', 'C08'],
+                 kind_free_text='nondeterministic model of the git binary (closure bit-vectors) + real-git replayer'),
             dict(name='symx', path='symx/', serves_properties=[p for p in sorted(CHECKS) if CHECKS[p].get('engine', 'symx') == 'symx'],
                  kind_free_text='forking symbolic executor for real Python function objects on z3 proxies'),
         ],
